@@ -37,6 +37,15 @@ PINNED = [
     (IMPL, r"buffer_\.size\(\)\s*==\s*centroids_capacity_\s*\*\s*BUFFER_MULTIPLIER", "update(): compress when the buffer holds capacity*BUFFER_MULTIPLIER values"),
 ]
 
+# centroid::add: the pinned shape, or the overflow-safe shape (delta; isfinite test; weight-ratio blend)
+CADD_OLD = (r"void\s+add\s*\(\s*const\s+centroid&\s+other\s*\)\s*\{\s*weight_\s*\+=\s*other\.weight_\s*;\s*"
+            r"mean_\s*\+=\s*\(\s*other\.mean_\s*-\s*mean_\s*\)\s*\*\s*other\.weight_\s*/\s*weight_\s*;\s*\}")
+CADD_SAFE = (r"void\s+add\s*\(\s*const\s+centroid&\s+other\s*\)\s*\{\s*weight_\s*\+=\s*other\.weight_\s*;\s*"
+             r"const\s+T\s+delta\s*=\s*\(\s*other\.mean_\s*-\s*mean_\s*\)\s*\*\s*other\.weight_\s*/\s*weight_\s*;\s*"
+             r"if\s*\(\s*std::isfinite\(\s*delta\s*\)\s*\)\s*\{\s*mean_\s*\+=\s*delta\s*;\s*\}\s*else\s*\{\s*"
+             r"const\s+T\s+ratio\s*=\s*static_cast<T>\(\s*other\.weight_\s*\)\s*/\s*static_cast<T>\(\s*weight_\s*\)\s*;\s*"
+             r"mean_\s*=\s*mean_\s*\*\s*\(\s*1\s*-\s*ratio\s*\)\s*\+\s*other\.mean_\s*\*\s*ratio\s*;\s*\}\s*\}")
+
 WAVG = r"return\s+weighted_average\(\s*centroids_\[i\]\.get_mean\(\)\s*,\s*(w1|w2)\s*,\s*centroids_\[i\s*\+\s*1\]\.get_mean\(\)\s*,\s*(w1|w2)\s*\)\s*;"
 
 
@@ -70,4 +79,12 @@ def generate(repo, T):
         # (mean[i], w2, mean[i+1], w1) is the reference implementation's order.
         extra.append("/-- true: `weighted_average(mean[i], w1, mean[i+1], w2)` (as found in the header); false: `(mean[i], w2, mean[i+1], w1)` -/")
         extra.append("def tdigest_QUANTILE_WEIGHTS_AS_W1_W2 : Bool := %s" % ("true" if ms[0] == ("w1", "w2") else "false"))
+    n_old, n_safe = len(re.findall(CADD_OLD, src(HPP))), len(re.findall(CADD_SAFE, src(HPP)))
+    if n_old + n_safe != 1:
+        T.fail("%s: centroid::add is neither the plain `mean_ += (other.mean_ - mean_) * other.weight_ / weight_` nor the "
+               "overflow-safe shape (delta / std::isfinite / weight-ratio blend)" % HPP)
+    else:
+        extra.append("/-- true: `centroid::add` falls back to `mean_ * (1 - ratio) + other.mean_ * ratio` when the delta is not finite; "
+                     "false: plain `mean_ += delta` -/")
+        extra.append("def tdigest_CENTROID_ADD_OVERFLOW_SAFE : Bool := %s" % ("true" if n_safe else "false"))
     return {"TDigest.lean": base.replace("\nend DSGen", "\n".join(extra) + "\n\nend DSGen")}
